@@ -574,16 +574,21 @@ class Life:
         """The command ends: its `sleep` is terminated (or, for a command that owns the terminal, the user types ^C)."""
         before = self.paste_count()
         was = self.s.termios_state()
-        if method == "ctrl-c":
-            self.request("SIGINT", send=False)      # the terminal sends SIGINT to the whole foreground group, fzf included
-            self.s.send(b"\x03")
-        else:
+        def stop():
+            # the command's shell may not have started its `sleep` yet: keep looking for it until the command is gone
             for pid in self.kind_pids(kind):
                 try:
                     os.kill(pid, signal.SIGTERM)
                 except OSError:
                     pass
-        if not self.wait_until(lambda: not self.kind_pids(kind, only_sleep=False), 60, "command gone") and not self.s.fzf_gone():
+            return not self.kind_pids(kind, only_sleep=False)
+        if method == "ctrl-c":
+            self.request("SIGINT", send=False)      # the terminal sends SIGINT to the whole foreground group, fzf included
+            self.s.send(b"\x03")
+            gone = self.wait_until(lambda: not self.kind_pids(kind, only_sleep=False), 20, "command gone") or self.wait_until(stop, 60, "command gone")
+        else:
+            gone = self.wait_until(stop, 90, "command gone")
+        if not gone and not self.s.fzf_gone():
             raise Infra("command %s did not end" % kind)
         if self.s.fzf_gone():
             return
